@@ -63,6 +63,7 @@ class Uci
     std::map<std::string, UciOption> options;
     PolyglotBook polyglot;
     bool polyglot_sample_random_move;
+    bool searchmoves_given;
 
     friend void start_searching(Uci* uci);
 };
